@@ -552,6 +552,7 @@ func (s *persistentHybridSearch) Execute() ([]HybridSearchResult, error) {
 			wg.Add(1)
 			go func(segment *segmentMetadata) {
 				defer wg.Done()
+				verifPoint("search:segment:begin")
 
 				// Load segment index
 				idx, err := segment.getIndex(
@@ -560,6 +561,7 @@ func (s *persistentHybridSearch) Execute() ([]HybridSearchResult, error) {
 					s.storage.config.MetadataIndexTemplate,
 				)
 				if err != nil {
+					verifPoint("search:segment:end")
 					// Log error but continue with other segments
 					return
 				}
@@ -595,10 +597,12 @@ func (s *persistentHybridSearch) Execute() ([]HybridSearchResult, error) {
 
 				results, err := search.Execute()
 				if err != nil {
+					verifPoint("search:segment:end")
 					return
 				}
 
 				resultsChan <- results
+				verifPoint("search:segment:end")
 			}(seg)
 		}
 
@@ -667,10 +671,12 @@ func (s *PersistentHybridIndex) flushMemtables() error {
 	}
 
 	for _, mt := range frozen {
+		verifPoint("flushMemtables:next")
 		if err := s.flushMemtable(mt); err != nil {
 			return fmt.Errorf("failed to flush memtable: %w", err)
 		}
 
+		verifPoint("flushMemtables:flushed")
 		// Remove from queue
 		s.memtableQueue.remove(mt)
 	}
@@ -689,6 +695,7 @@ func (s *PersistentHybridIndex) flushMemtable(mt *memtable) error {
 	// Generate segment ID and paths
 	segmentID := s.provider.nextSegmentID()
 	hybridPath, vectorPath, textPath, metadataPath := s.provider.segmentPaths(segmentID)
+	verifPoint("flush:begin")
 
 	// Create compressed writers
 	hybridFile, err := os.Create(hybridPath)
@@ -696,6 +703,7 @@ func (s *PersistentHybridIndex) flushMemtable(mt *memtable) error {
 		return fmt.Errorf("failed to create hybrid file: %w", err)
 	}
 	defer hybridFile.Close()
+	verifPoint("flush:created:hybrid")
 
 	hybridGz := gzip.NewWriter(hybridFile)
 	defer hybridGz.Close()
@@ -710,6 +718,7 @@ func (s *PersistentHybridIndex) flushMemtable(mt *memtable) error {
 			return fmt.Errorf("failed to create vector file: %w", err)
 		}
 		defer vectorFile.Close()
+		verifPoint("flush:created:vector")
 
 		vectorGz = gzip.NewWriter(vectorFile)
 		defer vectorGz.Close()
@@ -722,6 +731,7 @@ func (s *PersistentHybridIndex) flushMemtable(mt *memtable) error {
 			return fmt.Errorf("failed to create text file: %w", err)
 		}
 		defer textFile.Close()
+		verifPoint("flush:created:text")
 
 		textGz = gzip.NewWriter(textFile)
 		defer textGz.Close()
@@ -734,6 +744,7 @@ func (s *PersistentHybridIndex) flushMemtable(mt *memtable) error {
 			return fmt.Errorf("failed to create metadata file: %w", err)
 		}
 		defer metadataFile.Close()
+		verifPoint("flush:created:metadata")
 
 		metadataGz = gzip.NewWriter(metadataFile)
 		defer metadataGz.Close()
@@ -755,17 +766,22 @@ func (s *PersistentHybridIndex) flushMemtable(mt *memtable) error {
 		return fmt.Errorf("failed to write index: %w", err)
 	}
 
+	verifPoint("flush:written")
 	// Close gzip writers to ensure all data is flushed
 	if vectorGz != nil {
 		vectorGz.Close()
+		verifPoint("flush:closed:vector")
 	}
 	if textGz != nil {
 		textGz.Close()
+		verifPoint("flush:closed:text")
 	}
 	if metadataGz != nil {
 		metadataGz.Close()
+		verifPoint("flush:closed:metadata")
 	}
 	hybridGz.Close()
+	verifPoint("flush:closed:hybrid")
 
 	// Get file sizes
 	var totalSize int64
@@ -794,6 +810,7 @@ func (s *PersistentHybridIndex) flushMemtable(mt *memtable) error {
 
 	// Add to segment manager
 	s.segmentManager.add(segment)
+	verifPoint("flush:registered")
 
 	return nil
 }
@@ -805,13 +822,17 @@ func (s *PersistentHybridIndex) flushWorker() {
 	for {
 		select {
 		case <-s.flushChan:
+			verifPoint("flushWorker:wake")
 			if err := s.flushMemtables(); err != nil {
 				// Log error but continue
 				fmt.Printf("flush error: %v\n", err)
 			}
+			verifPoint("flushWorker:done")
 		case <-s.closeChan:
 			// Final flush before closing
+			verifPoint("flushWorker:final")
 			s.flushMemtables()
+			verifPoint("flushWorker:exit")
 			return
 		}
 	}
@@ -827,15 +848,20 @@ func (s *PersistentHybridIndex) compactionWorker() {
 	for {
 		select {
 		case <-ticker.C:
+			verifPoint("compactionWorker:tick")
 			if err := s.maybeCompact(); err != nil {
 				// Log error but continue
 				fmt.Printf("compaction error: %v\n", err)
 			}
+			verifPoint("compactionWorker:done")
 		case <-s.compactionChan:
+			verifPoint("compactionWorker:wake")
 			if err := s.maybeCompact(); err != nil {
 				fmt.Printf("compaction error: %v\n", err)
 			}
+			verifPoint("compactionWorker:done")
 		case <-s.closeChan:
+			verifPoint("compactionWorker:exit")
 			return
 		}
 	}
@@ -854,6 +880,7 @@ func (s *PersistentHybridIndex) Close() error {
 	}
 	s.closed = true
 	s.mu.Unlock()
+	verifPoint("close:closed")
 
 	// Signal background workers to stop
 	close(s.closeChan)
